@@ -3,6 +3,8 @@
 Everything works on the JSON fact base written by the rustc_private driver (resolved callees,
 field names, evaluated constants).  Local variable names never appear in any normalised form.
 """
+import json
+import os
 import re
 import sys
 from collections import defaultdict, deque
@@ -484,6 +486,31 @@ class Body:
     def _mk_proj(self, base, elems):
         if not elems:
             return base
+        # `let r = match s { A(ref mut x) => Some(x), _ => None }; if let Some(x) = r { x.f = … }`: the payload of a
+        # multi-definition Option local that is Some(X) at exactly one definition (None at the others) is X
+        if base[0] == "var" and len(elems) >= 2 and elems[0] == "@Some" and elems[1] == "0" and not getattr(self, "_in_optmerge", False):
+            payloads, other = [], False
+            self._in_optmerge = True
+            try:
+                for loc, kind, node in self.defs.get(base[1], []):
+                    if kind != "assign":
+                        other = True
+                        continue
+                    try:
+                        de = self.rvalue_expr(node["rv"])
+                    except RecursionError:
+                        other = True
+                        continue
+                    if de[0] == "agg" and de[1] == "Some" and len(de[2]) == 1:
+                        payloads.append(de[2][0])
+                    elif de[0] == "agg" and de[1] == "None":
+                        pass
+                    else:
+                        other = True
+            finally:
+                self._in_optmerge = False
+            if not other and len(payloads) == 1 and not _mentions_var(payloads[0]):
+                return self._mk_proj(payloads[0], tuple(elems[2:]))
         # slices of slices: x.split_at(m) = (x[..m], x[m..]);  x[a..][i] = x[a+i];  x[a..e][b..] = x[a+b..e]; …
         # (value identity only: the bounds obligations of the intermediate slices are separate proof obligations)
         if base[0] == "call" and base[1] in ("[T]::split_at", "core::slice::<impl [T]>::split_at") and len(base[2]) == 2 and elems[0] in ("0", "1"):
@@ -818,6 +845,93 @@ def name_match(pat, full, short):
 # ---------------------------------------------------------------------------------------------
 
 
+# ---------------------------------------------------------------------------------------------
+# inlining of helper functions that the reviewed tree did not have
+
+
+def _known_fns():
+    p = os.path.join(os.path.dirname(os.path.dirname(os.path.abspath(__file__))), "known_fns.json")
+    try:
+        return set(json.load(open(p))["fns"])
+    except Exception:
+        return None
+
+
+def _remap(node, lo, bo, ret_target):
+    """deep copy of a callee's block list with locals shifted by lo and block ids by bo"""
+    if isinstance(node, dict):
+        out = {}
+        for k, v in node.items():
+            if k == "l" and isinstance(v, int) and ("p" in node):
+                out[k] = v + lo
+            elif k in ("target", "unwind", "otherwise") and isinstance(v, int):
+                out[k] = v + bo
+            elif k == "targets" and isinstance(v, list):
+                out[k] = [[a, b + bo] for a, b in v]
+            elif k == "idx" and isinstance(v, int):
+                out[k] = v + lo  # index projection by local
+            else:
+                out[k] = _remap(v, lo, bo, ret_target)
+        return out
+    if isinstance(node, list):
+        return [_remap(x, lo, bo, ret_target) for x in node]
+    return node
+
+
+def inline_unknown_helpers(fns, known, depth=3):
+    """Every call, inside a function the reviewed tree had, to a crate-local function it did NOT have (a helper
+    extracted by a later refactoring) is replaced by the helper's body: blocks spliced in, parameters bound by
+    assignments, `return` turned into an assignment of the call's destination and a jump to its target.  On the
+    reviewed tree nothing is unknown and nothing changes.  Returns the number of call sites inlined."""
+    import copy
+    n_inl = 0
+    inlined = set()
+    for path, f in list(fns.items()):
+        if path not in known or not f.get("body"):
+            continue
+        body = f["body"]
+        for _ in range(depth):
+            progressed = False
+            for bi in range(len(body["blocks"])):
+                t = body["blocks"][bi]["term"]
+                if t["k"] != "call" or not t.get("fn"):
+                    continue
+                callee = t["fn"]
+                k = fns.get(callee)
+                if k is None or callee in known or callee == path or not k.get("body") or k.get("kind") == "Closure":
+                    continue
+                kb = k["body"]
+                if kb["argc"] != len(t["args"]):
+                    continue
+                lo, bo = len(body["locals"]), len(body["blocks"])
+                body["locals"].extend(copy.deepcopy(kb["locals"]))
+                for d in kb.get("dbg", []):
+                    d2 = _remap(copy.deepcopy(d), lo, bo, None)
+                    d2["arg"] = None
+                    body["dbg"].append(d2)
+                sp = t.get("sp")
+                newblocks = _remap(copy.deepcopy(kb["blocks"]), lo, bo, None)
+                for nb in newblocks:
+                    tt = nb["term"]
+                    if tt["k"] == "return":
+                        nb["stmts"].append({"k": "assign", "pl": copy.deepcopy(t["dest"]), "rv": {"k": "use", "op": {"k": "move", "pl": {"l": lo, "p": []}}}, "sp": tt.get("sp", sp)})
+                        if t.get("target") is None:
+                            nb["term"] = {"k": "unreachable", "sp": tt.get("sp", sp)}
+                        else:
+                            nb["term"] = {"k": "goto", "target": t["target"], "sp": tt.get("sp", sp)}
+                body["blocks"].extend(newblocks)
+                blk = body["blocks"][bi]
+                for i, a in enumerate(t["args"]):
+                    blk["stmts"].append({"k": "assign", "pl": {"l": lo + 1 + i, "p": []}, "rv": {"k": "use", "op": copy.deepcopy(a)}, "sp": sp})
+                blk["term"] = {"k": "goto", "target": bo, "sp": sp}
+                n_inl += 1
+                inlined.add(callee)
+                progressed = True
+            if not progressed:
+                break
+    return n_inl, inlined
+
+
 class Facts:
     def __init__(self, data):
         self.data = data
@@ -829,6 +943,16 @@ class Facts:
                 dup.add(f["path"])
             self.fns[f["path"]] = f
         self.dup_paths = dup
+        self.inlined_calls = 0
+        known = _known_fns()
+        if known is not None and data.get("crate", "uflow") == "uflow":
+            self.unknown_fns = sorted(p for p, f in self.fns.items() if p not in known and f.get("body") and f.get("kind") != "Closure" and "::tests::" not in p and "::promoted[" not in p)
+            self.inlined_fns = set()
+            if self.unknown_fns:
+                self.inlined_calls, self.inlined_fns = inline_unknown_helpers(self.fns, known)
+        else:
+            self.unknown_fns = []
+            self.inlined_fns = set()
         self.consts = {c["path"]: c for c in data["consts"]}
         self.adts = {a["path"]: a for a in data["adts"]}
         self.impls = data["impls"]
@@ -881,7 +1005,11 @@ class Facts:
         return b
 
     def all_bodies(self):
+        """all bodies, except helper functions unknown to the reviewed tree whose code was inlined into their known
+        callers (their statements are seen there, in context)"""
         for p in self.fns:
+            if p in self.inlined_fns:
+                continue
             yield self.body(p)
 
     def closures_of(self, parent_path):
@@ -1428,7 +1556,12 @@ class FactsAnalysis:
                 except RecursionError:
                     gens.pop(name, None)
                     continue
-                if e[0] in ("proj", "arg", "const", "cast") and not _mentions_var(e):
+                if e[0] == "agg" and e[1] in ("Some", "None", "Ok", "Err"):
+                    # `v = Some(..)` / `v = None`: the variant of the local is known on this path
+                    bl = "is(%s,%s)" % (name, e[1])
+                    self.lit_places[bl] = {name}
+                    gens[name] = [bl]
+                elif e[0] in ("proj", "arg", "const", "cast") and not _mentions_var(e):
                     bl = "%s:=%s" % (name, show(e))
                     self.lit_places[bl] = places_of(e) | {name}
                     gens[name] = [bl]
